@@ -53,6 +53,10 @@ func (p *Prog) fc(r *Report, fn *ssa.Function, label string, ab [][2]string) *FC
 			spliced[ii.site.H] = true
 		}
 		ii.atom.Key = c.sh(ii.atom.Key)
+		if ii.alt != nil {
+			a := Atom{Key: c.sh(ii.alt.Key), Pol: ii.alt.Pol}
+			ii.alt = &a
+		}
 		if ctr, n, ok := tableCounter(ii.t); ok {
 			ii.tblCtr = ctr
 			for k := 0; k < n; k++ {
